@@ -215,6 +215,14 @@ def run(ctx):
     names = sorted(R.rules_dict)
     ctx.pmap(driver, [names[i::16] for i in range(16)])
     ctx.pmap(hyp_shard, range(16))
+    from props import c05
+    for label, sp in c05.large_trees():
+        if label["size"] == 6000:
+            try:
+                check_tree(sp)
+                ctx.note(key=label, nontrivial=True, cls="large-tree")
+            except Violation as v:
+                ctx.fail(v.bucket, {"tree": {"n": "large-tree-see-C05", "large": label}}, v.message)
     if not ctx.quick:
         from vf import fuzz
         fuzz.campaign(ctx, ID, "trees", procs=8, runs=30000)
@@ -226,6 +234,12 @@ def run(ctx):
 
 def replay(case):
     try:
+        if "large" in case["tree"]:
+            from props import c05
+            for label, sp in c05.large_trees():
+                if label == case["tree"]["large"]:
+                    check_tree(sp)
+            return None
         check_tree(case["tree"])
     except Violation as v:
         return f"{v.bucket}: {v.message}"
